@@ -78,7 +78,8 @@ def gen_call(rng):
         c["plot"] = rng.random() < 0.04
         c["fail"] = rng.choice([None, None, None, "norm"])
     elif fn == "histogram1d":
-        c["layers"] = [rng.choice([0, 1, 2])]
+        # several layers in one call: the returned Plot describes the last one
+        c["layers"] = rng.sample([0, 1, 2], rng.choice([1, 1, 2, 3]))
         c["bins_call"] = rng.choice([None, 5, "shared-list"])
         c["weights_call"] = rng.random() < 0.4
     elif fn == "scatter":
@@ -94,7 +95,8 @@ def generate(rng, tier):
     layer_opts = []
     for k in range(3):
         layer_opts.append({o: rng.random() < 0.4 for o in OPTS})
-    l1 = {"bins": rng.choice([None, 4, "list"]), "weights": rng.random() < 0.4}
+    # layer-level bins/weights of the three histogram1d layers ("on": which of them carry the layer-level setting)
+    l1 = {"bins": rng.choice([None, 4, "list"]), "weights": rng.random() < 0.4, "on": [rng.random() < 0.6 for _ in range(3)]}
     calls = [gen_call(rng) for _ in range(rng.choice([2, 3, 4, 6]))]
     if rng.random() < 0.5:
         calls.append(dict(calls[rng.randrange(len(calls))]))  # an exact repetition
@@ -204,7 +206,8 @@ class Shared:
             kw["bins"] = np.array([0.0, 5.0, 10.0, 50.0])
         if h["weights"]:
             kw["weights"] = osyris.Array(values=np.linspace(3.0, 4.0, n), unit="g", name="lw")
-        self.h1_layers = [osyris.core.Layer(self.dg[key], **kw) for key in keys]
+        on = h.get("on", [True, True, True])
+        self.h1_layers = [osyris.core.Layer(self.dg[key], **(kw if on[i] else {})) for i, key in enumerate(keys)]
         self.color = osyris.Array(values=np.arange(n, dtype=float) + 1.0, unit="K", name="col")
         self.size = osyris.Array(values=np.full(n, 0.01), unit="cm", name="sz")
         self.plot_dict = {"x": self.dg["density"], "y": self.dg["temperature"]}
@@ -310,11 +313,13 @@ def run_call(case, call, S, sims, reference_layer=None):
                 with np.errstate(all="ignore"):
                     return osyris.histogram2d(S.dg["density"], S.dg["temperature"], *layers, **kw)
         if fn == "histogram1d":
-            k = call["layers"][0]
+            k = call["layers"][-1] if reference_layer is None else reference_layer
             kw = {}
             h = case["hist1d_layer"]
+            if not h.get("on", [True, True, True])[k]:
+                h = {"bins": None, "weights": False}
             if reference_layer is None:
-                layer = S.h1_layers[k]
+                layer = [S.h1_layers[j] for j in call["layers"]]
                 if call["bins_call"] == 5:
                     kw["bins"] = 5
                 elif call["bins_call"] == "shared-list":
@@ -337,7 +342,7 @@ def run_call(case, call, S, sims, reference_layer=None):
                 elif call["weights_call"]:
                     kw["weights"] = S.weights.copy()
             try:
-                return osyris.histogram1d(layer, **kw)
+                return osyris.histogram1d(*layer, **kw) if isinstance(layer, list) else osyris.histogram1d(layer, **kw)
             finally:
                 plt.close("all")
         if fn == "scatter":
@@ -519,7 +524,7 @@ def execute(case, stats):
                     V("precedence", "operation" if d in ("data", "mask", "unit") else d, {"layer": k, "where": d, "effective": eff}, step, call)
                     break
         if fn == "histogram1d":
-            k = call["layers"][0]
+            k = call["layers"][-1]
             try:
                 R = run_call(case, call, S, [], reference_layer=k)
                 d = digests_equal(dg_, plot_digest(fn, R))
@@ -527,8 +532,10 @@ def execute(case, stats):
                     V("precedence", "bins-weights", {"where": d, "layer_opts": case["hist1d_layer"]}, step, call)
             except Exception as e:
                 V("precedence", "reference-call-raised", {"error": f"{type(e).__name__}: {e}"[:160]}, step, call)
-            if case["hist1d_layer"]["bins"] is not None and call["bins_call"] is not None:
+            if case["hist1d_layer"]["bins"] is not None and call["bins_call"] is not None and case["hist1d_layer"].get("on", [True] * 3)[k]:
                 both_levels = True
+            if len(call["layers"]) > 1:
+                stats.inc("probe.histogram1d_with_several_layers")
     res["signature"] = core.digest(case)[:20]
     res["nontrivial"] = bool(shared_twice and both_levels)
     return res
